@@ -33,7 +33,7 @@ TIERS = {
 }
 FLOORS = {
     "quick": {"counts": {"vertex_pairs_compared": 30000, "steps": 3000, "shape_steps": 600}, "keys": 60},
-    "thorough": {"counts": {"vertex_pairs_compared": 700000, "shape_steps": 15000}, "keys": 100},
+    "thorough": {"counts": {"vertex_pairs_compared": 700000, "shape_steps": 15000}, "keys": 75},
 }
 
 
